@@ -8,8 +8,12 @@ Reads lines "<item>: <ids…|NONE>" printed by scripts/battery.sh and records th
 """
 import json, os, re, sys
 
+# --union: the files are partial runs (subsets of the checks): an item's entry is the union
+# of what the runs found, added to what is already recorded
+union = '--union' in sys.argv
+args = [a for a in sys.argv[1:] if a != '--union']
 matrix = {}
-for f in sys.argv[1:]:
+for f in args:
     for line in open(f):
         m = re.match(r'^([^:\s]+):\s*(.*)$', line.strip())
         if not m:
@@ -19,11 +23,18 @@ for f in sys.argv[1:]:
             ids = []
         if any(not re.match(r'^C\d\d$', i) for i in ids):
             continue
-        matrix[item] = sorted(set(ids))
+        if union:
+            matrix[item] = sorted(set(matrix.get(item, [])) | set(ids))
+        else:
+            matrix[item] = sorted(set(ids))
 
 path = '/verif/selftest/matrix.json'
 old = json.load(open(path)) if os.path.exists(path) else {}
-old.update(matrix)
+if union:
+    for k, v in matrix.items():
+        old[k] = sorted(set(old.get(k, [])) | set(v))
+else:
+    old.update(matrix)
 json.dump(dict(sorted(old.items())), open(path, 'w'), indent=1)
 
 missed, notown = [], []
